@@ -150,3 +150,139 @@ def inline_unknown(fns, known, max_rounds=3, max_blocks=400):
         if p in used and p not in still_called:
             f['inlined_away'] = True
     return done
+
+
+
+# ---------------------------------------------------------------------------------------------
+# jump threading over boolean temporaries: `let ok = matches!(x, A | B); if ok {..}` (and the MIR of
+# `matches!`, `a && b` stored in a local, ...) assigns a constant in each arm of a branch, joins, and
+# branches again on that constant.  Redirecting every such predecessor straight to the target its
+# constant selects gives the same CFG as writing the test directly in the `if`, so dominance-based
+# rules and the typestate analysis see through the temporary.
+def merge_linear(fn):
+    """Append a block to its unique predecessor when that predecessor jumps to it unconditionally (goto chains left behind by inlining)."""
+    blocks = fn['blocks']
+    changed = False
+    for _ in range(50):
+        preds = {}
+        for i, b in enumerate(blocks):
+            for tg in _targets(b['term']):
+                preds.setdefault(tg, []).append(i)
+        did = False
+        for i, b in enumerate(blocks):
+            t = b['term']
+            if t['k'] != 'goto' or b.get('cleanup'):
+                continue
+            j = t.get('t')
+            if j is None or j == i or j == 0 or preds.get(j, []) != [i] or blocks[j].get('cleanup') or blocks[j].get('merged'):
+                continue
+            b['stmts'] = b['stmts'] + blocks[j]['stmts']
+            b['term'] = blocks[j]['term']
+            blocks[j] = {'cleanup': True, 'merged': True, 'stmts': [], 'term': {'k': 'unreachable', 'ln': t.get('ln'), 'col': t.get('col')}}
+            did = True
+            changed = True
+            break
+        if not did:
+            break
+    return changed
+
+
+def thread_bool_jumps(fn, max_iter=6):
+    blocks = fn['blocks']
+    changed_any = False
+    for _ in range(max_iter):
+        preds = {}
+        for i, b in enumerate(blocks):
+            t = b['term']
+            for tg in _targets(t):
+                preds.setdefault(tg, []).append(i)
+        changed = False
+        for j, jb in enumerate(blocks):
+            t = jb['term']
+            if t['k'] != 'switch' or t.get('ty') != 'bool' or jb.get('cleanup'):
+                continue
+            op = t['op']
+            if op.get('k') not in ('copy', 'move') or op['pl']['p']:
+                continue
+            loc = op['pl']['l']
+            # the join block may only shuffle the tested value between temporaries (`dest = move ret_local`): follow that chain
+            # back to the local the predecessors assign; those copies are replicated into each threaded predecessor
+            chain_ok = True
+            for s_ in reversed(jb['stmts']):
+                if s_['k'] == 'assign' and not s_['lhs']['p'] and s_['rv'].get('k') == 'use' and s_['rv']['op'].get('k') in ('copy', 'move') and not s_['rv']['op']['pl']['p']:
+                    if s_['lhs']['l'] == loc:
+                        loc = s_['rv']['op']['pl']['l']
+                    continue
+                chain_ok = False
+                break
+            if not chain_ok:
+                continue
+            tgt_false = None
+            for v, tg in t['targets']:
+                if v == 0:
+                    tgt_false = tg
+            if tgt_false is None:
+                continue
+            tgt_true = t['otherwise']
+            ps = preds.get(j, [])
+            if len(ps) < 2:
+                continue
+            for p in ps:
+                pb = blocks[p]
+                if pb['term']['k'] != 'goto' or pb['term'].get('t') != j:
+                    continue
+                val = None
+                for s in pb['stmts']:
+                    if s['k'] == 'assign' and s['lhs']['l'] == loc and not s['lhs']['p']:
+                        rv = s['rv']
+                        if rv.get('k') == 'use' and rv['op'].get('k') == 'const' and rv['op'].get('ty') == 'bool' and isinstance(rv['op'].get('val'), bool):
+                            val = rv['op']['val']
+                        else:
+                            val = None
+                if val is None:
+                    # not a constant (e.g. the arm evaluates a comparison): duplicate the join's switch into this predecessor so
+                    # that the branch is taken on this arm's own value (tail duplication; the join only copies temporaries)
+                    if len(jb['stmts']) <= 3 and len(ps) <= 8 and _defines_upstream(blocks, preds, p, loc):
+                        pb['stmts'] = pb['stmts'] + [dict(x) for x in jb['stmts']]
+                        pb['term'] = copy.deepcopy(t)
+                        changed = True
+                        changed_any = True
+                    continue
+                pb['stmts'] = pb['stmts'] + [dict(x) for x in jb['stmts']]
+                pb['term'] = dict(pb['term'], t=(tgt_true if val else tgt_false))
+                changed = True
+                changed_any = True
+        if not changed:
+            break
+    return changed_any
+
+
+def _targets(t):
+    out = []
+    if 't' in t and isinstance(t['t'], int):
+        out.append(t['t'])
+    if t['k'] == 'switch':
+        out.extend(tg for _, tg in t['targets'])
+        out.append(t['otherwise'])
+    return out
+
+
+def _defines_upstream(blocks, preds, p, loc, hops=4):
+    """The tested local is (re)defined on the way into predecessor p: by a statement of p, or by the call that ends p's only
+    predecessor (possibly through a short goto chain).  Only then does duplicating the join's switch into p separate values."""
+    cur = p
+    for _ in range(hops):
+        b = blocks[cur]
+        if any(s_['k'] == 'assign' and s_['lhs']['l'] == loc and not s_['lhs']['p'] for s_ in b['stmts']):
+            return True
+        ps = preds.get(cur, [])
+        if len(ps) != 1:
+            return False
+        q = blocks[ps[0]]
+        t = q['term']
+        if t['k'] == 'call' and t['dest']['l'] == loc and not t['dest']['p'] and t.get('t') == cur:
+            return True
+        if t['k'] != 'goto':
+            return False
+        cur = ps[0]
+    return False
